@@ -65,6 +65,28 @@ void gen_plan() {
     scripts.resize(nth); role.resize(nth); next_seq.assign(nth, 0); tst.resize(nth + 1);
     int infp = sim::rnd(3);   // 0: no untimed ops, 1: some, 2: many
     if (sim::rnd(6) == 0 && !hx::param("no_choreo", 0)) {
+        // the last item and the close arrive back to back, from another vCPU, while receivers poll a buffered channel
+        W.nvcpu = 2 + sim::rnd(2); cap = 1 + sim::rnd(4); n_send = 1; n_recv = 1 + sim::rnd(3);
+        int nth2 = n_send + n_recv;
+        scripts.assign(nth2, {}); role.assign(nth2, 0); next_seq.assign(nth2, 0); tst.resize(nth2 + 1);
+        for (int t = 0; t < nth2; t++) {
+            role[t] = t < n_send ? 0 : 1;
+            if (role[t] == 0) {
+                int n = 1 + sim::rnd(3);
+                for (int i = 0; i < n; i++) {
+                    Op p0; p0.idx = n_ops++; p0.k = OP_PAUSE; p0.pause_us = T_US[sim::rnd(5)]; scripts[t].push_back(p0);
+                    Op o; o.idx = n_ops++; o.k = OP_SEND; o.inf = false; o.timeout_us = T_US[4 + sim::rnd(4)]; scripts[t].push_back(o);
+                }
+                Op c; c.idx = n_ops++; c.k = OP_CLOSE; scripts[t].push_back(c);
+            } else {
+                int n = 4 + sim::rnd(12);
+                for (int i = 0; i < n; i++) { Op o; o.idx = n_ops++; o.k = sim::rnd(4) == 0 ? OP_TRYRECV : OP_RECV; o.inf = false; o.timeout_us = T_US[sim::rnd(4)]; scripts[t].push_back(o); }
+            }
+        }
+        choreo = true;
+        return;
+    }
+    if (sim::rnd(6) == 0 && !hx::param("no_choreo", 0)) {
         // rendezvous under pressure: a sender with a very short deadline, a second sender right behind it and a receiver on
         // another vCPU, all without a closer; whoever is left waiting with a partner available shows up at quiescence
         W.nvcpu = 2 + sim::rnd(2); cap = 0; n_send = 2 + sim::rnd(2); n_recv = 1 + sim::rnd(2);
